@@ -288,6 +288,9 @@ distinct = distinct positions / names / strings; oracle = reference successor on
     // ---- archive names -----------------------------------------------------------------------------------
     let n = ctx.tier.pick(100_000, 3_000_000);
     for i in 0..n {
+        if i % 16 == 1 {
+            crate::props::poison::run(i as u64);
+        }
         let y = rng.range(1991, 2100) as i64;
         let mo = rng.range(1, 12) as u32;
         let d = match rng.below(4) {
@@ -300,13 +303,28 @@ distinct = distinct positions / names / strings; oracle = reference successor on
             1 => (0, 0, 0),
             _ => (rng.below(24) as u32, rng.below(60) as u32, rng.below(60) as u32),
         };
+        // four-character site: letters as in KTLX, but also digits (FOP1, NOP3, DAN1 are real
+        // sites), lower case, and now and then any printable ASCII - the name form says "SSSS"
+        let site_kind = rng.below(8);
         let site: String = (0..4)
-            .map(|k| {
-                if k == 0 {
-                    *rng.pick(&['K', 'P', 'T', 'R'])
-                } else {
-                    (b'A' + rng.below(26) as u8) as char
+            .map(|k| match site_kind {
+                0 | 1 | 2 => {
+                    if k == 0 {
+                        *rng.pick(&['K', 'P', 'T', 'R'])
+                    } else {
+                        (b'A' + rng.below(26) as u8) as char
+                    }
                 }
+                3 | 4 => {
+                    if k == 3 {
+                        (b'0' + rng.below(10) as u8) as char
+                    } else {
+                        (b'A' + rng.below(26) as u8) as char
+                    }
+                }
+                5 => *rng.pick(&['A', 'Z', '0', '9', 'k', 'q']),
+                6 => (b'a' + rng.below(26) as u8) as char,
+                _ => rng.range(0x21, 0x7e) as u8 as char,
             })
             .collect();
         let suffix = match rng.below(6) {
@@ -346,6 +364,9 @@ distinct = distinct positions / names / strings; oracle = reference successor on
     // ---- totality on arbitrary strings ------------------------------------------------------------------
     let n = ctx.tier.pick(600_000, 12_000_000);
     for i in 0..n {
+        if i % 16 == 1 {
+            crate::props::poison::run(i as u64);
+        }
         let s = if i % 3 == 0 { near_valid(&mut rng) } else { unicode_string(&mut rng) };
         totality(obs, &s, mix(163, crate::rng::fnv_str(&s)));
         if obs.samples.len() < 5 && i == 17 {
